@@ -1,4 +1,4 @@
-Require Import OPC.gen.GenKinds OPC.Uni OPC.Names OPC.Codec OPC.Types OPC.Endpoint OPC.EndpointThm.
+Require Import OPC.gen.GenKinds OPC.Uni OPC.Names OPC.Codec OPC.Types OPC.Endpoint OPC.EndpointThm OPC.Parse OPC.ParseThm.
 From Coq Require Import NArith ZArith List Bool. Import ListNotations. Open Scope N_scope.
 
 (* every query / header / cookie argument appears under exactly its wire name in exactly its location, with its encoded value *)
@@ -72,3 +72,9 @@ Proof. exact security_demands_auth. Qed.
 Theorem C03_multi_body_same_type_refuted : exists T f ep a k,
   get_kwargs T f ep a = Some k /\ kw_json k <> None /\ kw_data k <> None.
 Proof. exact multi_body_same_type_refuted. Qed.
+
+(* document level: every declared request media type becomes a body of its own type or a diagnostic *)
+Theorem C03_body_plan_total : forall ct hs, exists p, body_plan ct hs = p /\ (p = BInvalidType \/ p = BMissingSchema \/ p = BUnsupported \/ exists t, p = BBody t).
+Proof. exact body_plan_total. Qed.
+Theorem C03_body_plan_json : forall s, str_eqb s s_app_json = true -> body_plan (Some s) true = BBody BJson.
+Proof. exact body_plan_json. Qed.
